@@ -20,20 +20,20 @@ HARNESS = {
             'call': 'check_c09(&buf[..len], idx, little)', 'unwind': 6},
     'c09_len': {'args': [('buf', 'u8x24'), ('len', 'usize'), ('little', 'bool')], 'bound': 'table <= 24 bytes (u32 entries and Rel/ELF32 entries)', 'assume': 'len <= 24',
                 'call': 'check_c09_len(&buf[..len], little)', 'unwind': 2},
-    'c14_a0': {'args': [('buf', 'u8x28'), ('len', 'usize'), ('elf64', 'bool'), ('little', 'bool')], 'bound': 'note bytes <= 28, alignment 0, first two notes',
-               'assume': 'len <= 28', 'call': 'check_c14(&buf[..len], 0, elf64, little)', 'unwind': 8},
-    'c14_a4': {'args': [('buf', 'u8x28'), ('len', 'usize'), ('elf64', 'bool'), ('little', 'bool')], 'bound': 'note bytes <= 28, alignment 4, first two notes',
-               'assume': 'len <= 28', 'call': 'check_c14(&buf[..len], 3, elf64, little)', 'unwind': 8},
-    'c14_a8': {'args': [('buf', 'u8x28'), ('len', 'usize'), ('elf64', 'bool'), ('little', 'bool')], 'bound': 'note bytes <= 28, alignment 8, first two notes',
-               'assume': 'len <= 28', 'call': 'check_c14(&buf[..len], 4, elf64, little)', 'unwind': 8},
-    'c14_a1': {'args': [('buf', 'u8x28'), ('len', 'usize'), ('elf64', 'bool'), ('little', 'bool')], 'bound': 'note bytes <= 28, alignment 1, first two notes',
-               'assume': 'len <= 28', 'call': 'check_c14(&buf[..len], 1, elf64, little)', 'unwind': 8},
+    'c14_a0': {'args': [('buf', 'u8x24'), ('len', 'usize'), ('elf64', 'bool'), ('little', 'bool')], 'bound': 'note bytes <= 24, alignment 0, first note',
+               'assume': 'len <= 24', 'call': 'check_c14(&buf[..len], 0, elf64, little)', 'unwind': 8},
+    'c14_a4': {'args': [('buf', 'u8x24'), ('len', 'usize'), ('elf64', 'bool'), ('little', 'bool')], 'bound': 'note bytes <= 24, alignment 4, first note',
+               'assume': 'len <= 24', 'call': 'check_c14(&buf[..len], 3, elf64, little)', 'unwind': 8},
+    'c14_a8': {'args': [('buf', 'u8x24'), ('len', 'usize'), ('elf64', 'bool'), ('little', 'bool')], 'bound': 'note bytes <= 24, alignment 8, first note',
+               'assume': 'len <= 24', 'call': 'check_c14(&buf[..len], 4, elf64, little)', 'unwind': 8},
+    'c14_a1': {'args': [('buf', 'u8x24'), ('len', 'usize'), ('elf64', 'bool'), ('little', 'bool')], 'bound': 'note bytes <= 24, alignment 1, first note',
+               'assume': 'len <= 24', 'call': 'check_c14(&buf[..len], 1, elf64, little)', 'unwind': 8},
     'c03_range': {'args': [('off', 'u64'), ('size', 'u64'), ('memsz', 'u64'), ('nobits', 'bool')], 'bound': 'one 60-byte ELF32/LE file; all offsets, sizes, p_memsz', 'assume': 'true',
                   'call': 'check_c03_range(off, size, memsz, nobits)', 'unwind': 9},
-    'c13_need': {'args': [('buf', 'u8x40'), ('len', 'usize'), ('count', 'u8'), ('start', 'u8'), ('little', 'bool')], 'bound': 'section bytes <= 40, count and start offset < 256, first two records',
-                 'assume': 'len <= 40', 'call': 'check_c13_iter(&buf[..len], count, start, little, false)', 'unwind': 8},
-    'c13_def': {'args': [('buf', 'u8x40'), ('len', 'usize'), ('count', 'u8'), ('start', 'u8'), ('little', 'bool')], 'bound': 'section bytes <= 40, count and start offset < 256, first two records',
-                'assume': 'len <= 40', 'call': 'check_c13_iter(&buf[..len], count, start, little, true)', 'unwind': 8},
+    'c13_need': {'args': [('buf', 'u8x40'), ('count', 'u8'), ('little', 'bool')], 'bound': 'a 40-byte section, iteration from offset 0, count < 256: first record + its first auxiliary record + the step',
+                 'assume': 'true', 'call': 'check_c13_iter(&buf, count, 0, little, false)', 'unwind': 8},
+    'c13_def': {'args': [('buf', 'u8x40'), ('count', 'u8'), ('little', 'bool')], 'bound': 'a 40-byte section, iteration from offset 0, count < 256: first record + its first auxiliary record + the step',
+                'assume': 'true', 'call': 'check_c13_iter(&buf, count, 0, little, true)', 'unwind': 8},
     'c10': {'args': [('ident', 'u8x16')], 'bound': 'none (all 16-byte idents)', 'assume': 'true', 'call': 'check_c10(&ident)', 'unwind': 6},
     'hash': {'args': [('buf', 'u8x5'), ('len', 'usize')], 'bound': 'name <= 5 bytes', 'assume': 'len <= 5', 'call': 'check_hash(&buf[..len])', 'unwind': 7},
 }
@@ -193,7 +193,7 @@ PAIRING = [
     (r'^C09\.(get\.|next\.|iter)', lambda m: 'c09'),
     (r'^C10\.(verify_ident|parse_ident|from_ei_data)\.', lambda m: 'c10'),
     (r'^(C12\.sysv_hash|C11\.gnu_hash|proof:hash::sysv_hash|proof:hash::gnu_hash)', lambda m: 'hash'),
-    (r'^C14\.(note|iter)\.', lambda m: ['c14_a4', 'c14_a8', 'c14_a0', 'c14_a1']),
+    (r'^C14\.(note|iter)\.', lambda m: ['c14_a4', 'c14_a8']),
     (r'^C03\.(section_range|segment_range|section_data|segment_data)\.', lambda m: 'c03_range'),
     (r'^C1[36]\.VerNeedIterator\.next\.', lambda m: 'c13_need'),
     (r'^C1[36]\.VerDefIterator\.next\.', lambda m: 'c13_def'),
@@ -215,8 +215,11 @@ def harness_for(obligation):
 def search_any(obligation, timeout=420):
     """try the paired harnesses in turn; the first failing input that replays wins, otherwise the last result (with all statuses)"""
     last = None; notes = []
+    t_end = time.time() + 2 * timeout          # overall budget for one obligation
     for h in harnesses_for(obligation):
-        r = dict(search(h, timeout=timeout), harness=h)
+        left = t_end - time.time()
+        if left < 60: notes.append('%s: skipped (search budget used up)' % h); continue
+        r = dict(search(h, timeout=int(min(timeout, left))), harness=h)
         notes.append('%s: %s' % (h, r.get('status')))
         last = r
         if r.get('status') == 'replayed-fails': break
